@@ -276,25 +276,28 @@ def lattice_case(args):
     return {"bad": bad, "eff": float(np.abs(ts - fs).max()), "dev": dev}
 
 
-def pulse_system(d, start):
+def pulse_system(d, start, late=False):
+    """late: everything is constant during the first two time steps and only then starts to change"""
     h0 = M.generic_herm(d, 1, 0.8)
     h1 = M.generic_herm(d, 2, 0.9)
     lop = np.diag(np.ones(d - 1), 1).astype(complex)
+    t_on, t_off, t_g = (0.53, 0.91, 0.67) if late else (0.33, 0.71, 0.47)
 
     def h(t):
         s_ = t - start
-        return h0 + (1.5 * h1 if 0.33 <= s_ < 0.71 else 0.0 * h1)
-    return oq.TimeDependentSystem(h, gammas=[lambda t: 0.8 if t - start >= 0.47 else 0.0], lindblad_operators=[lambda t: lop])
+        return h0 + (1.5 * h1 if t_on <= s_ < t_off else 0.0 * h1)
+    return oq.TimeDependentSystem(h, gammas=[lambda t: 0.8 if t - start >= t_g else 0.0], lindblad_operators=[lambda t: lop])
 
 
 def pulse_case(args):
-    cp, start, k, eps = args
+    cp, start, k, eps = args[:4]
+    late = bool(args[4]) if len(args) > 4 else False
     o = coupling(cp)
     d = o.shape[0]
     n = N_STEPS
     bath = oq.Bath(o, C.lib_correlations(SDS["ohmic-exp-T0.5"]))
     rho0 = initial_state(d)
-    sysm = pulse_system(d, start)
+    sysm = pulse_system(d, start, late)
     prm = C.make_params(DT, eps, dkmax=k)
     try:
         _, ts = C.run_tempo(sysm, bath, prm, rho0, start, n, False)
@@ -307,8 +310,9 @@ def pulse_case(args):
     dev = float(np.abs(ts - ps).max())
     bad = []
     if dev > tolerance(eps, n):
-        bad.append((f"pulse|{cp}|tempo-vs-pttempo-differ",
-                    f"H(t), gamma(t) with steps off the half-step grid, start={start} dkmax={k} epsrel={eps}: differ by {dev:.2e}"))
+        bad.append((f"pulse|{cp}|{'constant-during-the-first-two-steps|' if late else ''}tempo-vs-pttempo-differ",
+                    f"H(t), gamma(t) with steps off the half-step grid, start={start} dkmax={k} epsrel={eps} late={late}: "
+                    f"differ by {dev:.2e}"))
     return {"bad": bad, "eff": float(np.abs(ts - ss).max()), "dev": dev}
 
 
@@ -319,7 +323,8 @@ def run(tier, seed):
     for j, r in zip(lj, lres):
         for cls, what in r["bad"]:
             rep.add(Violation(cls, what, {"family": "lattice", "args": list(j)}))
-    pj = [(cp, st, k, e) for cp in ("sz", "sx", "d3block") for st in (0.0, -0.3, 1.7) for k in (None, 2) for e in EPSRELS]
+    pj = [(cp, st, k, e, late) for cp in ("sz", "sx", "d3block") for st in (0.0, -0.3, 1.7) for k in (None, 2) for e in EPSRELS
+          for late in (False, True)]
     pres = pmap(pulse_case, pj, seed=seed)
     for j, r in zip(pj, pres):
         for cls, what in r["bad"]:
